@@ -107,7 +107,12 @@ def run_case(c, k):
 
 
 def main():
+    global SRC
     sh("rm -rf %s && mkdir -p %s" % (BASE, BASE))
+    # the corpus runs against a snapshot of /repo's working tree taken now, so
+    # that /repo can be edited while the (long) run is in progress
+    sh("rsync -a --exclude .git /repo/ %s/src/" % BASE)
+    SRC = BASE + "/src"
     cs = cases(sys.argv[1:])
     q = queue.Queue()
     for c in cs:
